@@ -62,6 +62,9 @@ func runNodeCase(cs *hx.Case, fs *hx.FindingSet, cfg genCfg, after func(nm *hx.N
 	if cfg.BigAmounts && rapid.IntRange(0, 2).Draw(rt, "bigquota") > 0 {
 		opts.QuotaStr = rapid.SampledFrom([]string{"18446744073709551616", "1180591620717411303424001", "340282366920938463463374607431768211455"}).Draw(rt, "quota")
 	}
+	if cfg.Opts != nil {
+		cfg.Opts(rt, &opts)
+	}
 	cs.Op(map[string]interface{}{"opts": opts})
 	nm, err := hx.NewNodeMachine(opts, fs)
 	if err != nil {
